@@ -144,7 +144,7 @@ theorem start_spec {u : Int} {s s1 : State} {i : Identity} {p L : Int} (h : step
       simpa using ha
 
 theorem keepalive_spec {u : Int} {s s1 : State} {i : Identity} {lag : Nat} (h : step u s (.keepalive i lag) = some s1) :
-    ∃ o, s.ops i = some o ∧ o.alive = true ∧ o.exiting = false ∧ s1.now = s.now ∧ s1.ver = s.ver + 1 ∧
+    ∃ o, s.ops i = some o ∧ o.alive = true ∧ s1.now = s.now ∧ s1.ver = s.ver + 1 ∧
       s1.status = s.status.patch i (touchVal u o.prio o.lifetime (s.now - lag)) ∧
       s1.ops = updOp s.ops i { o with nextKA := some (s.now + (o.lifetime * u - marginT u o.lifetime)) } := by
   simp only [step] at h
@@ -152,16 +152,16 @@ theorem keepalive_spec {u : Int} {s s1 : State} {i : Identity} {lag : Nat} (h : 
   | none => simp [hk] at h
   | some o =>
     simp only [hk] at h
-    by_cases hg : (o.alive && !o.exiting) = true
+    by_cases hg : o.alive = true
     · rw [if_pos hg] at h
       simp only [Option.some.injEq] at h
       subst h
-      exact ⟨o, rfl, (guard_iff.mp hg).1, (guard_iff.mp hg).2, rfl, rfl, rfl, rfl⟩
+      exact ⟨o, rfl, hg, rfl, rfl, rfl, rfl⟩
     · rw [if_neg hg] at h; cases h
 
 theorem exit_spec {u : Int} {s s1 : State} {a : Identity} (h : step u s (.exit a) = some s1) :
     ∃ o, s.ops a = some o ∧ o.alive = true ∧ s1.now = s.now ∧ s1.status = s.status.erase a ∧
-      s1.ops = updOp s.ops a { o with alive := false, sleeping := false, nextKA := none } ∧ s1.ver = s.ver + 1 := by
+      s1.ops = updOp s.ops a { o with alive := false, sleeping := false, nextKA := none, inflight := none } ∧ s1.ver = s.ver + 1 := by
   simp only [step] at h
   cases hk : s.ops a with
   | none => simp [hk] at h
@@ -176,8 +176,8 @@ theorem exit_spec {u : Int} {s s1 : State} {a : Identity} (h : step u s (.exit a
     · rw [if_neg hg] at h; cases h
 
 theorem exitBegin_spec {u : Int} {s s1 : State} {a : Identity} (h : step u s (.exitBegin a) = some s1) :
-    ∃ o, s.ops a = some o ∧ o.alive = true ∧ o.exiting = false ∧ s1.now = s.now ∧ s1.status = s.status.erase a ∧
-      s1.ops = updOp s.ops a { o with exiting := true, sleeping := false, nextKA := none } ∧ s1.ver = s.ver + 1 := by
+    ∃ o, s.ops a = some o ∧ o.alive = true ∧ o.exiting = false ∧ s1.now = s.now ∧ s1.status = s.status ∧ s1.ver = s.ver ∧
+      s1.ops = updOp s.ops a { o with exiting := true, sleeping := false } := by
   simp only [step] at h
   cases hk : s.ops a with
   | none => simp [hk] at h
@@ -187,13 +187,13 @@ theorem exitBegin_spec {u : Int} {s s1 : State} {a : Identity} (h : step u s (.e
     · rw [if_pos hg] at h
       simp only [Option.some.injEq] at h
       subst h
-      have hz : touchVal u o.prio 0 s.now = none := by simp [touchVal, Rec.dead, Rec.deadline]
-      exact ⟨o, rfl, (guard_iff.mp hg).1, (guard_iff.mp hg).2, rfl, by simp only [hz, Status.patch], rfl, rfl⟩
+      exact ⟨o, rfl, (guard_iff.mp hg).1, (guard_iff.mp hg).2, rfl, rfl, rfl, rfl⟩
     · rw [if_neg hg] at h; cases h
 
 theorem exitEnd_spec {u : Int} {s s1 : State} {a : Identity} (h : step u s (.exitEnd a) = some s1) :
-    ∃ o, s.ops a = some o ∧ o.alive = true ∧ o.exiting = true ∧ s1.now = s.now ∧ s1.status = s.status ∧ s1.ver = s.ver ∧
-      s1.ops = updOp s.ops a { o with alive := false, exiting := false, sleeping := false } := by
+    ∃ o, s.ops a = some o ∧ o.alive = true ∧ o.exiting = true ∧ s1.now = s.now ∧ s1.status = s.status.erase a ∧
+      s1.ver = s.ver + 1 ∧
+      s1.ops = updOp s.ops a { o with alive := false, exiting := false, sleeping := false, nextKA := none, inflight := none } := by
   simp only [step] at h
   cases hk : s.ops a with
   | none => simp [hk] at h
@@ -204,7 +204,8 @@ theorem exitEnd_spec {u : Int} {s s1 : State} {a : Identity} (h : step u s (.exi
       simp only [Option.some.injEq] at h
       subst h
       have : o.alive = true ∧ o.exiting = true := by simpa using hg
-      exact ⟨o, rfl, this.1, this.2, rfl, rfl, rfl, rfl⟩
+      have hz : touchVal u o.prio 0 s.now = none := by simp [touchVal, Rec.dead, Rec.deadline]
+      exact ⟨o, rfl, this.1, this.2, rfl, by simp only [hz, Status.patch], rfl, rfl⟩
     · rw [if_neg hg] at h; cases h
 
 theorem kill_spec {u : Int} {s s1 : State} {a : Identity} (h : step u s (.kill a) = some s1) :
@@ -301,7 +302,7 @@ theorem deliver_spec {u : Int} {s s1 : State} {k : Identity} (h : step u s (.del
       s.ver ≤ s1.ver ∧ (s1.ver = s.ver → s1.status = s.status) ∧
       s1.ops = updOp s.ops k { o with paused := blockedB u s.status k o.prio s.now, seen := some (s.ver, s.now),
                                       sleeping := willTouch u s k o } := by
-  simp only [step] at h
+  simp only [step, deliverNow] at h
   cases hk : s.ops k with
   | none => simp [hk] at h
   | some o =>
@@ -320,54 +321,73 @@ theorem deliver_spec {u : Int} {s s1 : State} {k : Identity} (h : step u s (.del
       · simp only [decideCore_status_paused, Option.getD_some, willTouch]
     · rw [if_neg hg] at h; cases h
 
-/-- what a call on `view` records as "seen": the current version if the view is benign, nothing otherwise -/
+/-- what a call on an older `view` records as "seen": the current version if the view's verdict is the current status' -/
 def staleSeen (u : Int) (s : State) (i : Identity) (prio : Int) (view : Status) : Option (Nat × Int) :=
-  if benignView u s i prio view then some (s.ver, s.now) else none
+  if sameVerdict u s i prio view then some (s.ver, s.now) else none
 
-theorem stale_spec {u : Int} {s s1 : State} {i : Identity} {view : Status} (h : step u s (.deliverStale i view) = some s1) :
-    ∃ o, s.ops i = some o ∧ o.alive = true ∧ s1.now = s.now ∧
-      s1.status = s.status.eraseAll (staleCleaned u view i s.now) ∧
-      s.ver ≤ s1.ver ∧ (s1.ver = s.ver → s1.status = s.status) ∧
-      s1.ops = updOp s.ops i { o with paused := blockedB u view i o.prio s.now, sleeping := willTouchView u view i o s.now, seen := staleSeen u s i o.prio view } := by
+theorem deliver_not_exiting {u : Int} {s s1 : State} {a : Identity} {o : Op} (h : step u s (.deliver a) = some s1)
+    (ho : s.ops a = some o) : o.exiting = false := by
+  simp only [step, ho] at h
+  by_cases hg : (o.alive && !o.exiting) = true
+  · exact (guard_iff.mp hg).2
+  · simp [hg] at h
+
+/-- a view of the CURRENT version is the current status (a version identifies a content), and processing it is `deliver`:
+    the clean, naming the current version, is accepted -/
+theorem stale_current {u : Int} {s s1 : State} {i : Identity} {view : Status} {vv : Nat}
+    (h : step u s (.deliverStale i view vv) = some s1) (hv : vv = s.ver) :
+    view = s.status ∧ step u s (.deliver i) = some s1 := by
+  simp only [step] at h ⊢
+  cases hk : s.ops i with
+  | none => simp [hk] at h
+  | some o =>
+    simp only [hk] at h ⊢
+    by_cases hg : (o.alive && !o.exiting) = true
+    · rw [if_pos hg] at h
+      rw [if_pos hg]
+      rw [if_pos hv] at h
+      by_cases hc : view = s.status
+      · rw [if_pos hc] at h; exact ⟨hc, h⟩
+      · rw [if_neg hc] at h; cases h
+    · rw [if_neg hg] at h; cases h
+
+/-- a view of an OLDER version: its clean is refused (409), the status and its version stay as they are; only the
+    operator's own flags follow the view's verdict -/
+theorem stale_refused_spec {u : Int} {s s1 : State} {i : Identity} {view : Status} {vv : Nat}
+    (h : step u s (.deliverStale i view vv) = some s1) (hv : vv ≠ s.ver) :
+    ∃ o, s.ops i = some o ∧ o.alive = true ∧ o.exiting = false ∧ s1.now = s.now ∧ s1.status = s.status ∧ s1.ver = s.ver ∧
+      s1.ops = updOp s.ops i { o with paused := blockedB u view i o.prio s.now, sleeping := willTouchView u view i o s.now,
+                                      seen := staleSeen u s i o.prio view } := by
   simp only [step] at h
   cases hk : s.ops i with
   | none => simp [hk] at h
   | some o =>
     simp only [hk] at h
     by_cases hg : (o.alive && !o.exiting) = true
-    · rw [if_pos hg] at h
+    · rw [if_pos hg, if_neg hv] at h
       simp only [Option.some.injEq] at h
       subst h
-      refine ⟨o, rfl, (guard_iff.mp hg).1, rfl, ?_, ?_, ?_, ?_⟩
-      · simp [decideCore, staleCleaned]
-      · simp only; split <;> omega
-      · simp only
-        intro hv
-        split at hv
-        · rename_i hc
-          simpa [decideCore, staleCleaned] using hc
-        · omega
-      · simp only [decideCore_status_paused, Option.getD_some, willTouchView, staleSeen]
+      refine ⟨o, rfl, (guard_iff.mp hg).1, (guard_iff.mp hg).2, rfl, rfl, rfl, ?_⟩
+      simp only [decideCore_status_paused, Option.getD_some, willTouchView, staleSeen]
     · rw [if_neg hg] at h; cases h
 
-/-! ### the "current view" invariant -/
+/-- what every `deliverStale` does, whatever the view and its version: the clock stays, the status stays or loses exactly
+    what `deliver` removes, the operator's entry keeps everything but `paused`, `sleeping`, `seen` -/
+theorem stale_spec {u : Int} {s s1 : State} {i : Identity} {view : Status} {vv : Nat}
+    (h : step u s (.deliverStale i view vv) = some s1) :
+    ∃ o onew, s.ops i = some o ∧ o.alive = true ∧ o.exiting = false ∧ s1.now = s.now ∧
+      (s1.status = s.status ∨ s1.status = s.status.filter (fun e => !(e.2.dead u s.now && e.1 != i))) ∧
+      s.ver ≤ s1.ver ∧ (s1.ver = s.ver → s1.status = s.status) ∧
+      s1.ops = updOp s.ops i onew ∧ onew.prio = o.prio ∧ onew.lifetime = o.lifetime ∧ onew.alive = o.alive ∧
+      onew.exiting = o.exiting ∧ onew.nextKA = o.nextKA ∧ onew.inflight = o.inflight := by
+  by_cases hv : vv = s.ver
+  · obtain ⟨_, hd⟩ := stale_current h hv
+    obtain ⟨o, ho, ha, hnow, hst, hver, hsame, hops⟩ := deliver_spec hd
+    exact ⟨o, _, ho, ha, deliver_not_exiting hd ho, hnow, Or.inr hst, hver, hsame, hops, rfl, rfl, rfl, rfl, rfl, rfl⟩
+  · obtain ⟨o, ho, ha, he, hnow, hst, hver, hops⟩ := stale_refused_spec h hv
+    exact ⟨o, _, ho, ha, he, hnow, Or.inl hst, by omega, fun _ => hst, hops, rfl, rfl, rfl, rfl, rfl, rfl⟩
 
-/-- processing a benign older view IS processing the current status -/
-theorem benign_eq_deliver {u : Int} {s : State} {i : Identity} {view : Status} {o : Op}
-    (ho : s.ops i = some o) (hb : benignView u s i o.prio view = true) :
-    step u s (.deliverStale i view) = step u s (.deliver i) := by
-  have hbv := hb
-  simp only [benignView, Bool.and_eq_true, beq_iff_eq, decide_eq_true_eq] at hb
-  obtain ⟨hbl, hcl⟩ := hb
-  simp only [step, ho]
-  by_cases hg : (o.alive && !o.exiting) = true
-  · rw [if_pos hg, if_pos hg]
-    -- same cleaning (hence same version bump and status), same verdict, same sleep, same `seen`
-    have hst : s.status.eraseAll (decideCore u view.peers i o.prio true (some o.paused) s.now s.now).cleaned =
-        s.status.filter (fun e => !(e.2.dead u s.now && e.1 != i)) := by
-      simpa [decideCore] using hcl
-    simp only [hst, decideCore_status_paused, decideCore_touch, hbl, hbv, if_true]
-  · rw [if_neg hg, if_neg hg]
+/-! ### the "current verdict" invariant -/
 
 /-- An operator whose last processed version is the current one holds exactly the pause verdict of
     the current status (evaluated at the time it processed it). -/
@@ -415,6 +435,27 @@ theorem hops_same {s s' : State} (hops : s'.ops = s.ops) :
   rw [hops] at hk
   exact Or.inr ⟨op', hk, rfl, rfl, rfl⟩
 
+theorem inv_deliver {u : Int} {s s' : State} {i : Identity} (hi : Inv u s) (h : step u s (.deliver i) = some s') : Inv u s' := by
+  obtain ⟨o, ho, _, _, hst, hver, hsame, hops⟩ := deliver_spec h
+  intro k op hk v t hs
+  rw [hops] at hk
+  by_cases hki : k = i
+  · subst hki
+    simp at hk
+    subst hk
+    simp only [Option.some.injEq, Prod.mk.injEq] at hs
+    obtain ⟨rfl, rfl⟩ := hs
+    refine ⟨hver, ?_⟩
+    intro hv
+    rw [hsame hv.symm]
+  · rw [updOp_other _ _ hki] at hk
+    obtain ⟨h1, h2⟩ := hi k op hk v t hs
+    refine ⟨by omega, ?_⟩
+    intro hv
+    have : s'.ver = s.ver := by omega
+    rw [hsame this]
+    exact h2 (by omega)
+
 theorem inv_step {u : Int} {s s' : State} {l : Label} (hi : Inv u s) (h : step u s l = some s') : Inv u s' := by
   cases l with
   | start i prio lifetime =>
@@ -426,17 +467,17 @@ theorem inv_step {u : Int} {s s' : State} {l : Label} (hi : Inv u s) (h : step u
     · subst hki; simp at hk; subst hk; exact Or.inl rfl
     · rw [updOp_other _ _ hki] at hk; exact Or.inr ⟨op', hk, rfl, rfl, rfl⟩
   | keepalive i lag =>
-    obtain ⟨o, ho, _, _, _, hver, _, hops⟩ := keepalive_spec h
+    obtain ⟨o, ho, _, _, hver, _, hops⟩ := keepalive_spec h
     exact inv_frame hi (by omega) (fun e => by omega) (hops_upd ho hops rfl rfl rfl)
   | exit i =>
     obtain ⟨o, ho, _, _, _, hops, hver⟩ := exit_spec h
     exact inv_frame hi (by omega) (fun e => by omega) (hops_upd ho hops rfl rfl rfl)
   | exitBegin i =>
-    obtain ⟨o, ho, _, _, _, _, hops, hver⟩ := exitBegin_spec h
-    exact inv_frame hi (by omega) (fun e => by omega) (hops_upd ho hops rfl rfl rfl)
-  | exitEnd i =>
-    obtain ⟨o, ho, _, _, _, hst, hver, hops⟩ := exitEnd_spec h
+    obtain ⟨o, ho, _, _, _, hst, hver, hops⟩ := exitBegin_spec h
     exact inv_frame hi (by omega) (fun _ => hst) (hops_upd ho hops rfl rfl rfl)
+  | exitEnd i =>
+    obtain ⟨o, ho, _, _, _, _, hver, hops⟩ := exitEnd_spec h
+    exact inv_frame hi (by omega) (fun e => by omega) (hops_upd ho hops rfl rfl rfl)
   | exitLost i =>
     obtain ⟨o, ho, _, _, hst, hops, hver⟩ := exitLost_spec h
     exact inv_frame hi (by omega) (fun _ => hst) (hops_upd ho hops rfl rfl rfl)
@@ -464,52 +505,32 @@ theorem inv_step {u : Int} {s s' : State} {l : Label} (hi : Inv u s) (h : step u
     simp only [step, Option.some.injEq] at h
     subst h
     exact inv_frame hi (by simp only; omega) (fun e => by simp only at e; omega) (hops_same rfl)
-  | deliver i =>
-    obtain ⟨o, ho, _, _, hst, hver, hsame, hops⟩ := deliver_spec h
-    intro k op hk v t hs
-    rw [hops] at hk
-    by_cases hki : k = i
-    · subst hki
-      simp at hk
-      subst hk
-      simp only [Option.some.injEq, Prod.mk.injEq] at hs
-      obtain ⟨rfl, rfl⟩ := hs
-      refine ⟨hver, ?_⟩
-      intro hv
-      rw [hsame hv.symm]
-    · rw [updOp_other _ _ hki] at hk
-      obtain ⟨h1, h2⟩ := hi k op hk v t hs
-      refine ⟨by omega, ?_⟩
-      intro hv
-      have : s'.ver = s.ver := by omega
-      rw [hsame this]
-      exact h2 (by omega)
-  | deliverStale i view =>
-    obtain ⟨o, ho, _, _, hst, hver, hsame, hops⟩ := stale_spec h
-    intro k op hk v t hs
-    rw [hops] at hk
-    by_cases hki : k = i
-    · subst hki
-      simp at hk
-      subst hk
-      by_cases hb : benignView u s k o.prio view = true
-      · simp only [staleSeen, hb, if_true, Option.some.injEq, Prod.mk.injEq] at hs
-        obtain ⟨rfl, rfl⟩ := hs
-        refine ⟨hver, ?_⟩
-        intro hv
-        rw [hsame hv.symm]
-        -- a benign view yields the verdict of the current status
-        simp only [benignView, Bool.and_eq_true, beq_iff_eq] at hb
-        exact hb.1
-      · simp [staleSeen, hb] at hs
-    · rw [updOp_other _ _ hki] at hk
-      obtain ⟨h1, h2⟩ := hi k op hk v t hs
-      refine ⟨by omega, ?_⟩
-      intro hv
-      have : s'.ver = s.ver := by omega
-      rw [hsame this]
-      exact h2 (by omega)
-
+  | deliver i => exact inv_deliver hi h
+  | deliverStale i view vv =>
+    by_cases hv : vv = s.ver
+    · exact inv_deliver hi (stale_current h hv).2
+    · obtain ⟨o, ho, _, _, _, hst, hver, hops⟩ := stale_refused_spec h hv
+      intro k op hk v t hs
+      rw [hops] at hk
+      by_cases hki : k = i
+      · subst hki
+        simp at hk
+        subst hk
+        by_cases hb : sameVerdict u s k o.prio view = true
+        · simp only [staleSeen, hb, if_true, Option.some.injEq, Prod.mk.injEq] at hs
+          obtain ⟨rfl, rfl⟩ := hs
+          refine ⟨by omega, ?_⟩
+          intro _
+          rw [hst]
+          -- the view yields the verdict of the current status
+          simpa [sameVerdict] using hb
+        · simp [staleSeen, hb] at hs
+      · rw [updOp_other _ _ hki] at hk
+        obtain ⟨h1, h2⟩ := hi k op hk v t hs
+        refine ⟨by omega, ?_⟩
+        intro hv'
+        rw [hst]
+        exact h2 (by omega)
 theorem inv_reachable {u : Int} {s : State} (h : Reachable u s) : Inv u s := by
   induction h with
   | init => exact inv_init u
